@@ -109,8 +109,11 @@ class SMapped(SymIterable):
 class SSeq(SymIterable):
     """generic symbolic sequence given by a length and an item function (items may be arbitrary proxies)"""
 
-    def __init__(self, n, item_fn, kind="list"):
+    def __init__(self, n, item_fn, kind="list", root=None, index_fn=None):
         self.n, self.item_fn, self.kind = n, item_fn, kind
+        # provenance: this sequence is root[index_fn(t)] for t < n (root = itself for a primary sequence)
+        self.root = root if root is not None else self
+        self.index_fn = index_fn if index_fn is not None else (lambda t: to_term(t))
 
     def vc_len(self):
         return self.n
@@ -132,7 +135,12 @@ class SSeq(SymIterable):
 
     def __getitem__(self, k):
         if isinstance(k, slice):
-            raise Unsupported("slice of symbolic sequence")
+            from .arrays import SArr as _S
+            lo, ln = _S._slice_bounds(k, self.n)
+            c = core.const_value(ln)
+            f, ix = self.item_fn, self.index_fn
+            return SSeq(c if isinstance(c, int) else SNum(ln), lambda j: f(SNum(z3.simplify(lo + to_term(j)))), self.kind,
+                        root=self.root, index_fn=lambda t: ix(SNum(z3.simplify(lo + to_term(t)))))
         n = dim_term(self.n)
         kt = to_term(k)
         ck = core.const_value(kt)
@@ -143,6 +151,8 @@ class SSeq(SymIterable):
 
 
 def is_symbolic_iterable(x):
+    if hasattr(type(x), "__len__") and hasattr(type(x), "__getitem__") and hasattr(x, "data") and isinstance(getattr(x, "data", None), SArr):
+        return True   # repository array wrappers (CustomNumpyArray): sequence protocol over a symbolic array
     if isinstance(x, SymIterable):
         c = x.vc_len() if not isinstance(x, SRepeat) else 0
         return True
@@ -154,6 +164,8 @@ def is_symbolic_iterable(x):
 def has_symbolic_len(x):
     if isinstance(x, SRepeat):
         return False
+    if hasattr(x, "data") and isinstance(getattr(x, "data", None), SArr) and not hasattr(x, "vc_len"):
+        return dim_const(x.data.shape[0]) is None
     if isinstance(x, (SymIterable, SArr, SRec, SList)) or hasattr(x, "vc_len"):
         n = x.vc_len()
         return dim_const(n) is None
@@ -193,6 +205,10 @@ def indexable(x):
         return SRange(x.start, x.stop)
     if isinstance(x, dict):
         return list(x)
+    if hasattr(type(x), "__len__") and hasattr(type(x), "__getitem__") and not isinstance(x, (str, bytes)):
+        n = vc_len(x)
+        if dim_const(n) is None:
+            return SSeq(n, lambda j: x[j])
     try:
         return list(x)
     except VCTypeError:
@@ -305,6 +321,10 @@ def _vc_int(x=0, *a):
         return SNum(to_term(x))
     if isinstance(x, SArr) and x.ndim == 0:
         return vc_int(x.item())
+    if isinstance(x, str):
+        tok = core.parse_token(x)
+        if tok is not None:
+            return tok
     return builtins.int(x, *a)
 
 
@@ -421,6 +441,8 @@ def vc_sorted(x, key=None, reverse=False):
 
 def vc_tuple(x=()):
     if is_symbolic_iterable(x) and has_symbolic_len(x):
+        if isinstance(x, SSeq):
+            return SSeq(x.n, x.item_fn, "tuple", root=x.root, index_fn=x.index_fn)
         if isinstance(x, SymIterable):
             return SSeq(x.vc_len(), x.item, kind="tuple")
         return x
@@ -431,6 +453,8 @@ def vc_list(x=()):
     if isinstance(x, SArr) and dim_const(x.shape[0]) is None:
         return SList(x) if x.ndim == 1 else SSeq(x.shape[0], lambda j: item_of(x, j))
     if is_symbolic_iterable(x) and has_symbolic_len(x):
+        if isinstance(x, SSeq):
+            return SSeq(x.n, x.item_fn, "list", root=x.root, index_fn=x.index_fn)
         if isinstance(x, SymIterable):
             return SSeq(x.vc_len(), x.item, kind="list")
         return x
@@ -466,13 +490,42 @@ def vc_next(it, *default):
     return builtins.next(it, *default)
 
 
+class SymIterator:
+    """explicit iterator over a symbolic iterable: next() forks on exhaustion"""
+
+    def __init__(self, src):
+        self.src, self.pos = src, 0
+
+    def vc_next(self, *default):
+        n = dim_term(self.src.vc_len())
+        if Ctx.cur.branch(to_term(self.pos) < n):
+            v = item_of(self.src, num(self.pos))
+            self.pos = self.pos + 1
+            return v
+        if default:
+            return default[0]
+        raise StopIteration
+
+    def __iter__(self):
+        return self
+
+    def __next__(self):
+        return self.vc_next()
+
+
 def vc_iter(x, *a):
     if hasattr(x, "vc_iter"):
         return x.vc_iter()
+    if isinstance(x, SymIterable) and has_symbolic_len(x):
+        return SymIterator(x)
     return builtins.iter(x, *a)
 
 
 def vc_reversed(x):
+    if isinstance(x, SSeq) and dim_const(x.n) is None:
+        n, f, ix = dim_term(x.n), x.item_fn, x.index_fn
+        return SSeq(x.n, lambda j: f(SNum(z3.simplify(n - 1 - to_term(j)))), x.kind, root=x.root,
+                    index_fn=lambda t: ix(SNum(z3.simplify(n - 1 - to_term(t)))))
     return builtins.reversed(x)
 
 
